@@ -182,6 +182,20 @@ func init() {
 		run.Explanation = "E-DT: the siblings of single verification (expanded-key verification, the batch verifier's per-entry admission, key expansion, the batch early aborts and serial fallback, the caching verifier) are extracted path by path as uninterpreted-term decision tables and compared with the SAME specification formulas as single verification (C01), instantiated for the expanded-key vocabulary; equations, operand roles, stored entry fields and challenge-hash sequences must be the specified terms."
 		run.NotDecided = []string{"the multiscalar batch equation itself (numeric)", "cache eviction policy (sequential LRU correctness)", "histories longer than one operation beyond the per-operation pairing invariants"}
 		run.Exhaustive = true
+		verifierSiblingRules(c)
+		arithmeticFoundations(c)
+		groupFoundations(c, true)
+		readFullRule(c)
+		latticeRules(c)
+	}
+}
+
+// verifierSiblingRules: the rules of C09 proper (expanded-key verification, batch admission and
+// summary, key expansion, caching verifier).  Also run by C02: a signature is "always
+// verifiable" only if every verifier sibling accepts it.
+func verifierSiblingRules(c *Ctx) {
+	run := c.Run
+	{
 		id := "amd64"
 		if !c.Preload(id) {
 			return
@@ -210,8 +224,5 @@ func init() {
 			r := edt.Check(misc, cfg, s)
 			run.Sample(map[string]any{"function": s.Func, "paths": r.Paths, "feasible": r.Feasible, "classes": r.ClassCount})
 		}
-		arithmeticFoundations(c)
-		groupFoundations(c, true)
-		readFullRule(c)
 	}
 }
